@@ -44,7 +44,8 @@ def run(ck, rng):
         offs = range(len(doc) + 1) if len(doc) <= 200 and ck.tier == "thorough" else sorted(set(rng.sample(range(len(doc) + 1), min(10, len(doc) + 1)) + [0, len(doc)]))
         for k in offs:
             # sometimes the reader's error also wraps context.Canceled (an abandoned stream): still the reader's failure
-            cases.append("%sfout %d%s - 0 %s" % (pre, k, rng.choice(["", "", "c"]), tail))
+            # ... or is transient ("n": fails once at that offset and would deliver the rest if asked again)
+            cases.append("%sfout %d%s - 0 %s" % (pre, k, rng.choice(["", "", "c", "n"]), tail))
             meta.append(("reader", k, len(doc), total, doc, mode, massive, out0))
         # writer budgets
         if r0 == "ok":
@@ -84,7 +85,7 @@ def run(ck, rng):
     def model_case(c):
         c = c[1:] if c.startswith("m") else c
         f = c.split(" ")
-        if f[0] == "fout" and f[1].endswith("c"):
+        if f[0] == "fout" and f[1].endswith(("c", "n")):
             f[1] = f[1][:-1]
         if f[0] == "fout" and f[3] == "5":
             f[3] = "0"
